@@ -662,11 +662,9 @@ fn mmio_bus_reset() {
 }
 
 pub fn run(args: &Args, sh: &mut Shard) {
-    if args.is_miri() {
-        sh.inconclusive.push("driver-level checks use fabricated MMIO addresses for the real transports; C14 is not run under Miri".into());
-        return;
-    }
-    let steps = if args.thorough() { 600 } else { 300 };
+    // under Miri: model transports only (see xport_any::set_model_only), tiny workloads
+    crate::xport_any::set_model_only(args.is_miri());
+    let steps = if args.is_miri() { 25 } else if args.thorough() { 600 } else { 300 };
     if let Some(r) = &args.replay {
         let case = r.get("case").and_then(|x| x.as_u64()).unwrap_or(0);
         let o = one_case(case, args.seed, steps, true);
@@ -677,7 +675,7 @@ pub fn run(args: &Args, sh: &mut Shard) {
         sh.evaluations = 1;
         return;
     }
-    let n = args.scaled(if args.thorough() { 160_000 } else { 8_000 });
+    let n = if args.is_miri() { 48 } else { args.scaled(if args.thorough() { 160_000 } else { 8_000 }) };
     let mut case = args.shard;
     while case < n {
         let o = one_case(case, args.seed, steps, sh.want_sample());
